@@ -59,6 +59,11 @@ def subst_vars(e, env):
             return env[x[1]]
         if x[0] == 'un' and x[1] == 'deref' and x[2][0] == 'un' and x[2][1] == 'addr':
             return x[2][2]
+        if x[0] == 'idx' and x[1][0] == 'un' and x[1][1] == 'addr' and x[1][2][0] == 'idx':
+            inner = x[1][2]               # (&A[e])[k]  ==  A[e + k]
+            return ('idx', inner[1], ('bin', '+', inner[2], x[2]))
+        if x[0] == 'idx' and x[1][0] == 'un' and x[1][1] == 'addr' and x[1][2][0] == 'var' and x[2] == ('num', 0):
+            return x[1][2]                # (&v)[0] == v
         if x[0] == 'cond':
             c = fold_bool(x[1]) if x[1][0] in ('bool', 'num', 'none', 'un') else x[1]
             if c[0] == 'bool':
@@ -95,6 +100,8 @@ def map_stmt(s, fe):
             d[k] = [(fe(a), fe(b) if b is not None else None) for a, b in v]
         elif k in ('target', 'value', 'cond', 'lo', 'hi', 'step', 'iter', 'msg') and isinstance(v, tuple):
             d[k] = fe(v)
+        elif k == 'targets' and isinstance(v, list):
+            d[k] = [fe(t) if isinstance(t, tuple) else t for t in v]
         elif k == 'init' and isinstance(v, tuple):
             d[k] = fe(v)
         else:
@@ -193,6 +200,44 @@ def _bind(params, defaults, call, self_arg=None):
     return env
 
 
+def _absorb_copies(out, tag):
+    """Trailing copies `y = x@tag` of a helper local into a variable of the caller (results handed back through pointer parameters): when y does not occur
+    in the expanded statements otherwise, the helper local *is* y -- rename it and drop the copy."""
+    suffix = '@' + tag
+    changed = True
+    while changed and out:
+        changed = False
+        last = out[-1]
+        # look at the maximal run of trailing plain copies
+        k = len(out)
+        while k > 0 and out[k - 1].k == 'assign' and out[k - 1].d.get('aug') is None and out[k - 1].target[0] == 'var' \
+                and out[k - 1].value[0] == 'var' and out[k - 1].value[1].endswith(suffix):
+            k -= 1
+        copies = out[k:]
+        body = out[:k]
+        if not copies:
+            break
+        mentioned = {x[1] for t in walk_stmts(body) for e in stmt_exprs(t) for x in walk_expr(e) if x[0] == 'var'} | \
+            {t.name for t in walk_stmts(body) if t.k == 'decl'} | {t.var for t in walk_stmts(body) if t.k == 'for'}
+        ren = {}
+        keep = []
+        for c_ in copies:
+            y, x = c_.target[1], c_.value[1]
+            if y not in mentioned and x not in ren and y not in [v[1] for v in ren.values()] and not y.endswith(suffix):
+                ren[x] = ('var', y)
+            else:
+                keep.append(c_)
+        if ren:
+            body = _rename(body, ren)
+            for t in walk_stmts(body):
+                if t.k == 'decl' and t.name in ren:
+                    t.d['name'] = ren[t.name][1]
+                if t.k == 'for' and t.var in ren:
+                    t.d['var'] = ren[t.var][1]
+            out = body + keep
+    return out
+
+
 def _forward_result(body, use, rv):
     """Tidy the expansion of `target = helper(...)`: when the helper ends in a single `return V`, write `target = V` instead of going through the result
     variable; a tuple result assigned to a tuple target becomes one assignment per component, and a helper local that only carries a component to its
@@ -265,7 +310,8 @@ class Expander:
         pre = []
         sub = {}
         for p, a in env.items():
-            if a[0] in _SIMPLE and p not in written:
+            addr = a[0] == 'un' and a[1] == 'addr' and (a[2][0] == 'var' or (a[2][0] == 'idx' and a[2][1][0] == 'var'))
+            if (a[0] in _SIMPLE or addr) and p not in written:
                 sub[p] = a
             else:
                 nm = '%s@%s' % (p, tag)
@@ -297,6 +343,7 @@ class Expander:
             if t.k == 'for' and t.var in sub and sub[t.var][0] == 'var':
                 t.d['var'] = sub[t.var][1]
         out = self.block(_fold_ifs(out), stack + (key,))
+        out = _absorb_copies(out, tag)
         self.expanded.append(key)
         return pre + out, (('var', retvar) if retvar else None)
 
@@ -323,6 +370,14 @@ class Expander:
             if s.k in ('assign', 'return', 'decl'):
                 v = s.value if s.k != 'decl' else s.init
                 info = self._direct(v)
+                tiny = info is not None and sum(1 for t in walk_stmts(info[3]) if t.k in ('assign', 'decl')) <= 1 and not any(t.k == 'if' for t in walk_stmts(info[3]))
+                if info is not None and info[0] not in stack and tiny:
+                    ev_ = self._as_expression(v, info)           # a helper that is one expression: substitute it
+                    if ev_ is not None:
+                        d = dict(s.d)
+                        d['value' if s.k != 'decl' else 'init'] = ev_
+                        self.expanded.append(info[0])
+                        return [S(s.k, s.line, **d)]
                 if info is not None:
                     body, rv = self.instantiate(v, info, True, s.line, stack)
                     d = dict(s.d)
@@ -386,7 +441,30 @@ class Expander:
         if not rets or any(v is None for _, v in rets):
             return None
         # paths are prefixes of a decision tree in execution order: fold from the last
-        return _tree(rets)
+        return _bool_tree(_tree(rets))
+
+
+def _bool_tree(e):
+    """cond(c, True, X) = c or X ; cond(c, False, X) = not c and X ; cond(c, X, True) = not c or X ; cond(c, X, False) = c and X"""
+    if e is None or e[0] != 'cond':
+        return e
+    from .ir import canon_cond
+    c, a, b = e[1], _bool_tree(e[2]), _bool_tree(e[3])
+    T, F = ('bool', True), ('bool', False)
+    neg = canon_cond(('un', 'not', c))
+    if a == T and b == F:
+        return c
+    if a == F and b == T:
+        return neg
+    if a == T:
+        return ('bin', 'or', c, b)
+    if a == F:
+        return ('bin', 'and', neg, b)
+    if b == T:
+        return ('bin', 'or', neg, a)
+    if b == F:
+        return ('bin', 'and', c, a)
+    return ('cond', c, a, b)
 
 
 def _tree(rets):
@@ -401,9 +479,10 @@ def _tree(rets):
                 break
         if c is None:
             return items[0][1]
-        neg = ('un', 'not', c)
+        from .ir import canon_cond
+        neg = (('un', 'not', c), canon_cond(('un', 'not', c)))
         yes = [(p, v) for p, v in items if len(p) > depth and p[depth] == c]
-        no = [(p, v) for p, v in items if len(p) > depth and p[depth] == neg]
+        no = [(p, v) for p, v in items if len(p) > depth and p[depth] in neg]
         if len(yes) + len(no) != len(items) or not yes or not no:
             raise NotInlinable('paths')
         return ('cond', c, build(yes, depth + 1), build(no, depth + 1))
